@@ -35,6 +35,17 @@ pub const RLN_IDENTIFIER: &[u8] = b"zerokit/rln/010203040506070809";
 /// Byte length of `[ proof<128> | root<32> | external_nullifier<32> | x<32> | y<32> | nullifier<32> ]`
 const PROOF_AND_VALUES_SIZE: usize = 128 + 5 * 32;
 
+/// A message has exactly one accepted encoding of its public values: field elements are decoded
+/// with a reduction modulo the field order, so `v + k*p` would otherwise be accepted as `v`.
+fn check_canonical_proof_values(proof_values: &RLNProofValues, serialized: &[u8]) -> Result<()> {
+    if serialize_proof_values(proof_values) != serialized {
+        return Err(Report::msg(
+            "proof values are not canonically encoded field elements",
+        ));
+    }
+    Ok(())
+}
+
 /// The RLN object.
 ///
 /// It implements the methods required to update the internal Merkle Tree, generate and verify RLN ZK proofs.
@@ -806,7 +817,8 @@ impl RLN {
         }
         let proof = ArkProof::deserialize_compressed(&mut Cursor::new(&input_byte[..128]))?;
 
-        let (proof_values, _) = deserialize_proof_values(&input_byte[128..]);
+        let (proof_values, read) = deserialize_proof_values(&input_byte[128..]);
+        check_canonical_proof_values(&proof_values, &input_byte[128..128 + read])?;
 
         let verified = verify_proof(&self.verification_key, &proof, &proof_values)?;
 
@@ -970,6 +982,7 @@ impl RLN {
             ArkProof::deserialize_compressed(&mut Cursor::new(&serialized[..128].to_vec()))?;
         all_read += 128;
         let (proof_values, read) = deserialize_proof_values(&serialized[all_read..]);
+        check_canonical_proof_values(&proof_values, &serialized[all_read..all_read + read])?;
         all_read += read;
 
         let signal_len = usize::try_from(u64::from_le_bytes(
@@ -1053,6 +1066,7 @@ impl RLN {
             ArkProof::deserialize_compressed(&mut Cursor::new(&serialized[..128].to_vec()))?;
         all_read += 128;
         let (proof_values, read) = deserialize_proof_values(&serialized[all_read..]);
+        check_canonical_proof_values(&proof_values, &serialized[all_read..all_read + read])?;
         all_read += read;
 
         let signal_len = usize::try_from(u64::from_le_bytes(
